@@ -131,6 +131,68 @@ def run(ctx):
     r3.check(bool(shared_fns) and not waits, "manager-waits-on-nothing-process-wide", "the connection manager shared by the clients' pools and the mirrors' (%d functions) awaits no permit or lock of a static" % len(shared_fns),
              "%s waits for %s of a static: the mirror tasks' pools use the same manager, a mirror that accepts connections and then hangs holds it for connect_timeout at every attempt - connection attempts to the healthy "
              "primary wait behind the mirrors'" % ((waits[0][0].split(" as ")[0].strip("<") + "::" + waits[0][0].split("::")[-2], waits[0][1].name.split("::")[-1]) if waits else ("", "")), waits[0][1].where() if waits else "")
+    # ---------------- R5
+    # a server connection that is dropped tells its mirror tasks to stop (Drop for Server -> MirroringManager::disconnect -> the exit channel). The task must hear
+    # that wherever it waits for something the mirror decides - a connection of its pool above all: a mirror that is down fails every checkout, and a loop that
+    # only waits for the exit signal once it *has* a connection never ends; every closed server connection then leaves one more task dialling the mirror (D87)
+    r5 = ctx.rule("C20-R5", "the mirror task ends with its server connection: every wait inside its loop is a select! one branch of which is the exit channel's recv() and leaves the loop - the write of a request apart", floor=3)
+    if st:
+        heads = loop_headers(st)
+        main_loop = max((natural_loop(st, hd) for hd in heads), key=len) if heads else set()
+        r5.check(bool(main_loop), "task-loop", "the mirror task has a loop (%d blocks)" % len(main_loop), "the mirror task has no loop")
+        awaits = []
+        for c in st.calls():
+            if c.block not in main_loop or len(c.args) != 2:
+                continue
+            if not any(o.kind == "call" and o.call.name == "core::future::get_context" for o in origins(st, c.args[1])):
+                continue
+            awaits.append(c)
+        tuples = []
+        for bi, blk in enumerate(st.blocks):
+            for s_ in blk["stmts"]:
+                if s_["k"] == "assign" and s_["rv"]["k"] == "agg" and s_["rv"]["agg"] == "tuple" and not s_["lhs"]["p"] and "futures" in st.varnames.get(s_["lhs"]["l"], []):
+                    tuples.append((bi, s_["rv"]["ops"]))
+        sws = [sw for sw in switches(st) if (sw.discr() or [""])[0] and re.search(r"__tokio_select_util::Out<", sw.discr()[0]) and not sw.discr()[0].startswith("core::task::poll::Poll<")]
+        n_sel = 0
+        for c in awaits:
+            short = c.name.split("::{closure")[0].split("::")[-1] if "PollFn" not in c.name else "select!"
+            if re.search(r"PollFn<.*> as core::future::future::Future>::poll$", c.name):
+                cands = [(bi, ops) for bi, ops in tuples if st.dominates(bi, c.block)]
+                if not cands:
+                    r5.missing("the tuple of branch futures of the select! at %s" % c.where())
+                    continue
+                tb, tup = max(cands, key=lambda x: len([b_ for b_ in range(st.nblocks) if st.dominates(b_, x[0])]))
+                n_sel += 1
+                what = []
+                exit_i = None
+                for i, op in enumerate(tup):
+                    names = sorted({o.call.name for o in origins(st, op) if o.kind == "call"})
+                    what.append("+".join(x.split("::")[-1] if "Receiver" not in x else "Receiver::recv" for x in names))
+                    for o in origins(st, op):
+                        if o.kind == "call" and re.search(r"tokio::sync::mpsc::bounded::Receiver::recv$", o.call.name) and "disconnect_rx" in fields_of(st, o.call.args[0], taint=True):
+                            exit_i = i
+                key = "hears-exit:select#%d(%s)" % (n_sel, ",".join(what)[:60])
+                if exit_i is None:
+                    r5.check(False, key, "", "the select! of the mirror task's loop at %s has no branch waiting on the exit channel (disconnect_rx.recv()): while it waits there the task cannot be told to stop" % c.where(), c.where())
+                    continue
+                # the branch leaves the loop
+                mine = [sw for sw in sws if st.dominates(c.block, sw.block) and sw.block in main_loop]
+                mine = sorted(mine, key=lambda sw: len([b_ for b_ in range(st.nblocks) if st.dominates(b_, sw.block)]))
+                sw = next((x for x in mine if not any(st.dominates(c2.block, x.block) and c2 is not c and st.dominates(c.block, c2.block) for c2 in awaits if "PollFn" in c2.name)), None)
+                if sw is None:
+                    r5.missing("the output switch of the select! at %s" % c.where())
+                    continue
+                tgt = dict((v, t) for v, t in sw.targets if isinstance(v, int)).get(exit_i)
+                hd = [h_ for h_ in heads if natural_loop(st, h_) == main_loop][0]
+                stays = tgt is None or hd in st.reach([tgt])
+                r5.check(not stays, key, "the select! waits on the exit channel too, and that branch leaves the loop",
+                         "the exit branch of the select! at %s goes round the loop again instead of leaving it: the task survives the server connection it mirrored" % c.where(), c.where())
+            elif c.name.startswith("pgcat::server::Server::send::"):
+                r5.ok("write-of-a-request", "Server::send is awaited on its own (a request is written whole or the connection is marked bad - R2; what bounds it is the socket, not the mirror's availability)")
+            else:
+                r5.check(False, "hears-exit:" + short, "", "the mirror task's loop awaits %s at %s outside any select! on the exit channel: while the mirror is down (every checkout fails) or says nothing the loop never reads the exit signal its "
+                         "server connection sends when it is dropped - each closed server connection leaves a task behind that goes on dialling the mirror, without bound" % (short, c.where()), c.where())
+        r5.check(n_sel >= 1, "selects-found", "%d select!(s) among the %d waits of the mirror task's loop" % (n_sel, len(awaits)), "no select! found in the mirror task's loop")
     # ---------------- R4
     r4 = ctx.rule("C20-R4", "a mirror is attached to the server whose index it names, and a server's manager is built from its own address.mirrors only", floor=3)
     fc = ctx.body(FROM_CONFIG, r4)
